@@ -51,7 +51,7 @@ structure NRec where
   flag : Flag
   isDir : Bool
   cookie : Nat
-  name : String
+  name : Option String            -- `none`: the record is about the watched object itself
   deriving DecidableEq, Repr, Inhabited
 
 /-- kernel: watches keyed by inode -/
@@ -63,38 +63,44 @@ structure Kern where
 
 def Kern.wdOfIno (k : Kern) (ino : Nat) : Option Nat := (k.watches.find? (fun w => w.2 == ino)).map (·.1)
 
-/-- records for an event about entry `name` inside the directory with inode `dirIno` -/
-def Kern.onEntry (k : Kern) (dirIno : Nat) (flag : Flag) (isDir : Bool) (cookie : Nat) (name : String) : List NRec :=
-  match k.wdOfIno dirIno with
-  | some wd => [⟨wd, flag, isDir, cookie, name⟩]
+/-- records for an event about entry `name` inside the directory with inode `dirIno` (`none`: no such directory) -/
+def Kern.onEntry (k : Kern) (dirIno : Option Nat) (flag : Flag) (isDir : Bool) (cookie : Nat) (name : String) : List NRec :=
+  match dirIno with
   | none => []
+  | some ino =>
+    match k.wdOfIno ino with
+    | some wd => [⟨wd, flag, isDir, cookie, some name⟩]
+    | none => []
 
 /-- records on the watch of the object itself -/
 def Kern.onSelf (k : Kern) (ino : Nat) (flag : Flag) (isDir : Bool) : List NRec :=
   match k.wdOfIno ino with
-  | some wd => [⟨wd, flag, isDir, 0, ""⟩]
+  | some wd => [⟨wd, flag, isDir, 0, none⟩]
   | none => []
 
 def Kern.dropWatch (k : Kern) (ino : Nat) : Kern := { k with watches := k.watches.filter (fun w => w.2 != ino) }
 
 /-- removal of one entry (file: unlink; watched directory: DELETE_SELF, IGNORED on itself first) -/
 def removeEntry (fs : FS) (k : Kern) (e : Ent) : FS × Kern × List NRec :=
-  let parentIno := ((fs.find? (parentOf e.path)).map (·.ino)).getD 0
+  let parentIno := (fs.find? (parentOf e.path)).map (·.ino)
   let self := if e.isDir then k.onSelf e.ino .deleteSelf false ++ k.onSelf e.ino .ignored false else []
   let k1 := if e.isDir then k.dropWatch e.ino else k
   let recs := self ++ k.onEntry parentIno .delete e.isDir 0 (baseName e.path)
   ({ fs with ents := fs.ents.filter (fun x => x.path != e.path) }, k1, recs)
 
-/-- `shutil.rmtree` order: depth first, children in directory order, the directory last -/
-def rmtreeOrder (fuel : Nat) (fs : FS) (p : P) : List Ent :=
-  match fuel with
-  | 0 => []
-  | fuel + 1 =>
-    (fs.children p).flatMap (fun c => if c.isDir then rmtreeOrder fuel fs c.path ++ [c] else [c])
+/-- a removal order for `rmtree` when the harness did not supply the observed one: deeper entries first -/
+def canonOrder (fs : FS) (p : P) : List P :=
+  ((fs.descendants p).map (·.path)).mergeSort (fun a b => decide (b.length ≤ a.length))
+
+/-- remove the listed entries one after the other, then the directory itself -/
+def removeAll (fs : FS) (k : Kern) (es : List Ent) : FS × Kern × List NRec :=
+  es.foldl (fun (acc : FS × Kern × List NRec) x =>
+      let (fs1, k1, r) := removeEntry acc.1 acc.2.1 x
+      (fs1, k1, acc.2.2 ++ r)) (fs, k, [])
 
 /-- one file-system operation: new file system, new kernel state, the native records it queues -/
 def kernelOp (fs : FS) (k : Kern) (op : Op) : FS × Kern × List NRec :=
-  let pino := fun (p : P) => ((fs.find? (parentOf p)).map (·.ino)).getD 0
+  let pino := fun (p : P) => (fs.find? (parentOf p)).map (·.ino)
   match op with
   | .create p =>
     let e : Ent := ⟨p, false, fs.nextIno⟩
@@ -123,19 +129,11 @@ def kernelOp (fs : FS) (k : Kern) (op : Op) : FS × Kern × List NRec :=
     | none => (fs, k, [])
   | .rmtree p =>
     match fs.find? p with
-    | some e =>
-      (rmtreeOrder (fs.ents.length + 1) fs p ++ [e]).foldl
-        (fun (acc : FS × Kern × List NRec) x =>
-          let (fs1, k1, r) := removeEntry acc.1 acc.2.1 x
-          (fs1, k1, acc.2.2 ++ r)) (fs, k, [])
+    | some e => removeAll fs k ((canonOrder fs p).filterMap fs.find? ++ [e])
     | none => (fs, k, [])
   | .rmtreeOrd p order =>
     match fs.find? p with
-    | some e =>
-      (order.filterMap fs.find? ++ [e]).foldl
-        (fun (acc : FS × Kern × List NRec) x =>
-          let (fs1, k1, r) := removeEntry acc.1 acc.2.1 x
-          (fs1, k1, acc.2.2 ++ r)) (fs, k, [])
+    | some e => removeAll fs k (order.filterMap fs.find? ++ [e])
     | none => (fs, k, [])
   | .rename p q =>
     match fs.find? p with
@@ -165,7 +163,7 @@ structure LEv where
   flag : Flag
   isDir : Bool
   cookie : Nat
-  name : String
+  name : Option String
   src : P
   deriving DecidableEq, Repr, Inhabited
 
@@ -218,7 +216,7 @@ def libRecord (fs : FS) (k : Kern) (lib : Lib) (r : NRec) : Option (Kern × Lib 
   match lookupW lib.pathForWd r.wd with
   | none => none
   | some wdPath =>
-    let src := if r.name = "" then wdPath else wdPath ++ [r.name]
+    let src := match r.name with | none => wdPath | some n => wdPath ++ [n]
     let ev : LEv := ⟨r.wd, r.flag, r.isDir, r.cookie, r.name, src⟩
     match r.flag with
     | .movedFrom => some (k, { lib with movedFrom := (r.cookie, src) :: lib.movedFrom }, [ev])
@@ -260,11 +258,11 @@ def libRecord (fs : FS) (k : Kern) (lib : Lib) (r : NRec) : Option (Kern × Lib 
           let (k2, l2, sim) := inside.foldl (fun (acc : Kern × Lib × List LEv) e =>
               if e.isDir then
                 match addWatch fs acc.1 acc.2.1 e.path with
-                | some (ka, la, wd) => (ka, la, acc.2.2 ++ [⟨wd, .create, true, 0, baseName e.path, e.path⟩])
+                | some (ka, la, wd) => (ka, la, acc.2.2 ++ [⟨wd, .create, true, 0, some (baseName e.path), e.path⟩])
                 | none => acc
               else
                 match lookupP acc.2.1.wdForPath (parentOf e.path) with
-                | some wd => (acc.1, acc.2.1, acc.2.2 ++ [⟨wd, .create, false, 0, baseName e.path, e.path⟩])
+                | some wd => (acc.1, acc.2.1, acc.2.2 ++ [⟨wd, .create, false, 0, some (baseName e.path), e.path⟩])
                 | none => acc) (k1, l1, [])
           some (k2, l2, ev :: sim)
       else some (k, lib, [ev])
@@ -366,6 +364,47 @@ def Sys.start (fs : FS) (recursive full : Bool) : Sys :=
   let (k, lib) := libInit fs recursive
   { fs := fs, k := k, lib := lib, full := full }
 
+/-- `Inotify.remove_tree_watches(path)`: every watch the library knows at or below `p` is removed from the
+    kernel (`inotify_rm_watch`), which answers each with an IGNORED record (a descriptor the kernel no longer
+    has is refused: nothing happens) -/
+def unwatchTree (k : Kern) (lib : Lib) (p : P) : Kern × List NRec :=
+  (lib.wdForPath.filter (fun x => x.1 == p || isUnder p x.1)).foldl
+    (fun (acc : Kern × List NRec) x =>
+      if acc.1.watches.any (fun w => w.1 == x.2) then
+        ({ acc.1 with watches := acc.1.watches.filter (fun w => w.1 != x.2) }, acc.2 ++ [⟨x.2, .ignored, false, 0, none⟩])
+      else acc) (k, [])
+
+/-- directories whose MOVED_FROM stayed unmatched: they have left the watched tree -/
+def movedOut (gs : List Grouped) : List P :=
+  gs.filterMap (fun g => match g with
+    | .one e => if e.flag == .movedFrom && e.isDir then some e.src else none
+    | _ => none)
+
+/-- the emitter forgets the trees that left (recursive watches only); the IGNORED answers go through the
+    reader like any other record -/
+def forgetAll (fs : FS) (k : Kern) (lib : Lib) : List P → Option (Kern × Lib)
+  | [] => some (k, lib)
+  | p :: rest =>
+    let (k1, recs) := unwatchTree k lib p
+    match libBatch fs k1 lib recs with
+    | none => none
+    | some (k2, lib2, _) => forgetAll fs k2 lib2 rest
+
+/-- events of the grouped items, up to and including the one that stops the emitter -/
+def emitAll (fs : FS) (recursive full : Bool) (gs : List Grouped) : List PEv × Bool :=
+  gs.foldl (fun (acc : List PEv × Bool) g =>
+      if acc.2 then acc else
+      let (e, st) := emit fs recursive full g
+      (acc.1 ++ e, st)) ([], false)
+
+/-- the reader drops the kernel's watch-removed markers before queueing -/
+def Grouped.keep : Grouped → Bool
+  | .one e => e.flag != .ignored
+  | _ => true
+
+/-- what reaches the emitter of one batch -/
+def gsOf (levs : List LEv) : List Grouped := (group levs).filter Grouped.keep
+
 /-- apply one operation and let the observer drain: the events delivered for it -/
 def Sys.op (s : Sys) (op : Op) : Sys × List PEv :=
   let (fs1, k1, recs) := kernelOp s.fs s.k op
@@ -374,12 +413,11 @@ def Sys.op (s : Sys) (op : Op) : Sys × List PEv :=
     match libBatch fs1 k1 s.lib recs with
     | none => ({ s with fs := fs1, k := k1, crashed := true }, [])
     | some (k2, lib2, levs) =>
-      let gs := (group levs).filter (fun g => match g with | .one e => e.flag != .ignored | _ => true)
-      let (evs, stop) := gs.foldl (fun (acc : List PEv × Bool) g =>
-          if acc.2 then acc else
-          let (e, st) := emit fs1 lib2.recursive s.full g
-          (acc.1 ++ e, st)) ([], false)
-      ({ s with fs := fs1, k := k2, lib := lib2, stopped := stop }, evs)
+      let gs := gsOf levs
+      let (evs, stop) := emitAll fs1 lib2.recursive s.full gs
+      match forgetAll fs1 k2 lib2 (if lib2.recursive then movedOut gs else []) with
+      | none => ({ s with fs := fs1, k := k2, lib := lib2, crashed := true }, evs)
+      | some (k3, lib3) => ({ s with fs := fs1, k := k3, lib := lib3, stopped := stop }, evs)
 
 def Sys.run (s : Sys) : List Op → Sys × List (List PEv)
   | [] => (s, [])
@@ -393,6 +431,14 @@ def Sys.run (s : Sys) : List Op → Sys × List (List PEv)
 def FS.exists (fs : FS) (p : P) : Bool := (fs.find? p).isSome
 def FS.isFile (fs : FS) (p : P) : Bool := match fs.find? p with | some e => !e.isDir | none => false
 
+/-- `rmtree p` removing the descendants in the given order: the order lists every descendant once and
+    a directory comes after everything below it -/
+def validRmtree (fs : FS) (p : P) (order : List P) : Bool :=
+    2 ≤ p.length && fs.isDir p && order.all (fun q => isUnder p q && fs.exists q) &&
+    (fs.descendants p).all (fun e => order.contains e.path) && decide (order.Nodup) &&
+    (List.range order.length).all (fun i => (List.range order.length).all (fun j =>
+      !(isUnder (order.getD i []) (order.getD j [])) || j < i))
+
 /-- would the real syscall succeed on this file system? (entries are addressed below `W` or `O`) -/
 def validOp (fs : FS) : Op → Bool
   | .create p => 2 ≤ p.length && !fs.exists p && fs.isDir (parentOf p)
@@ -401,13 +447,8 @@ def validOp (fs : FS) : Op → Bool
   | .chmod p => 2 ≤ p.length && fs.exists p
   | .unlink p => fs.isFile p
   | .rmdir p => (2 ≤ p.length || p == ["W"]) && fs.isDir p && (fs.children p).isEmpty   -- the watched root itself may be removed
-  | .rmtree p => 2 ≤ p.length && fs.isDir p
-  | .rmtreeOrd p order =>
-    2 ≤ p.length && fs.isDir p && order.all (fun q => isUnder p q && fs.exists q) &&
-    (fs.descendants p).all (fun e => order.contains e.path) && decide (order.Nodup) &&
-    -- a directory comes after everything below it
-    (List.range order.length).all (fun i => (List.range order.length).all (fun j =>
-      !(isUnder (order.getD i []) (order.getD j [])) || j < i))
+  | .rmtree p => validRmtree fs p (canonOrder fs p)
+  | .rmtreeOrd p order => validRmtree fs p order
   | .rename p q =>
     2 ≤ p.length && 2 ≤ q.length && fs.exists p && fs.isDir (parentOf q) && p != q && !isUnder p q &&
     (match fs.find? q with
@@ -437,7 +478,7 @@ def quietOp (s_fs : FS) (k : Kern) (op : Op) : Bool :=
 /-- well-formed file system: unique paths, unique inodes below `nextIno`, the two top directories exist,
     every entry's parent is a directory -/
 def FS.WF (fs : FS) : Prop :=
-  (fs.ents.map Ent.path).Nodup ∧ (fs.ents.map Ent.ino).Nodup ∧ (∀ e ∈ fs.ents, e.ino < fs.nextIno) ∧
+  (fs.ents.map Ent.path).Nodup ∧ (fs.ents.map Ent.ino).Nodup ∧ (∀ e ∈ fs.ents, 0 < e.ino ∧ e.ino < fs.nextIno) ∧
   fs.isDir ["W"] = true ∧ fs.isDir ["O"] = true ∧
   ∀ e ∈ fs.ents, e.path = ["W"] ∨ e.path = ["O"] ∨ (2 ≤ e.path.length ∧ fs.isDir (parentOf e.path) = true)
 
